@@ -270,8 +270,10 @@ func TestC08_Save(t *testing.T) {
 					}
 				}
 				if setFlag {
-					args = append(args, "--pipeline")
+					args = append(args, rapid.SampledFrom([]string{"--pipeline", "--pipeline", "--pipeline=true", "--pipeline=1", "--pipeline=T"}).Draw(t, "true-spelling"))
 					want.Pipeline = true
+				} else if rapid.IntRange(0, 3).Draw(t, "explicit-false") == 0 {
+					args = append(args, rapid.SampledFrom([]string{"--pipeline=false", "--pipeline=0", "--pipeline=F"}).Draw(t, "false-spelling")) // the flag named, the value false
 				}
 				args = append([]string{"save"}, append(args, "--", cmdStr, desc)...)
 			}
